@@ -16,7 +16,7 @@ pub struct LpEngine {
     pub db128: HashMap<String, w128::Session>,
 }
 
-const LIQ_OPS: [&str; 4] = ["deposit", "withdraw", "swap", "pv"];
+const LIQ_OPS: [&str; 5] = ["deposit", "withdraw", "swap", "pv", "setclock"];
 
 impl LpEngine {
     pub fn snap(&self, sid: &str) -> Option<Snap> {
@@ -194,7 +194,10 @@ pub fn run_c06p() {
                     // on chain every deposit / withdrawal is preceded by `pre_execute` (distribute position
                     // impact, update borrowing, update funding): do the same, except in 1 of 8 cases
                     let pre = |r: &mut Rng, pending: &mut Vec<String>, main: String| -> String {
-                        if r.chance(7, 8) { pending.push(main); pending.push(format!("mlp ufund {sid} {}", p.fmt())); pending.push(format!("mlp ubor {sid} {}", p.fmt())); format!("mlp dist {sid}") } else { main }
+                        if r.chance(1, 10) {
+                            // instead of updating the borrowing state: a borrowing clock AHEAD of `now` (reads as 0 s passed)
+                            pending.push(main); pending.push(format!("mlp ufund {sid} {}", p.fmt())); pending.push(format!("mlp setclock {sid} 1 {}", snap.now + r.range(0, 5000))); format!("mlp dist {sid}")
+                        } else if r.chance(7, 8) { pending.push(main); pending.push(format!("mlp ufund {sid} {}", p.fmt())); pending.push(format!("mlp ubor {sid} {}", p.fmt())); format!("mlp dist {sid}") } else { main }
                     };
                     match if snap.supply == 0 { 0 } else { r.below(10) } {
                         0 | 1 | 2 | 3 => {
@@ -258,6 +261,13 @@ pub fn run_c06p() {
             "tick" if rr[0] == "ok" && t[3] != "0" => { fresh.insert(sid.clone(), (false, false)); }
             "ubor" if rr[0] == "ok" => { fresh.entry(sid.clone()).or_insert((false, false)).0 = true; }
             "dist" if rr[0] == "ok" => { fresh.entry(sid.clone()).or_insert((false, false)).1 = true; }
+            "setclock" if rr[0] == "ok" => {
+                // a clock at or ahead of `now` reads as "0 seconds passed" (saturating subtraction)
+                let ahead = t[4].parse::<u64>().unwrap() >= before.as_ref().map(|b| b.now).unwrap_or(0);
+                out.stat(if ahead { "setclock.at_or_ahead" } else { "setclock.behind" });
+                let e = fresh.entry(sid.clone()).or_insert((false, false));
+                match t[3] { "1" => e.0 = ahead, "0" => e.1 = ahead, _ => {} }
+            }
             "new" => { fresh.insert(sid.clone(), (false, false)); if rr[0] == "ok" { cfgs.insert(sid.clone(), (t[4].parse().unwrap(), t[5..].iter().map(|x| x.parse().unwrap()).collect())); } }
             _ => {}
         }
